@@ -1180,8 +1180,12 @@ void respond(struct request *rq, uint8_t code, struct tlv *addattr,
         debug(DBG_ERR, "respond: malloc failed");
         goto errexit;
     }
-    if (radmsg_copy_attrs(msg, rq->msg, RAD_Attr_Proxy_State) < 0)
-        debug(DBG_ERR, "respond: unable to copy all Proxy-State attributes");
+    addattr = NULL; /* belongs to msg now */
+    if (radmsg_copy_attrs(msg, rq->msg, RAD_Attr_Proxy_State) < 0) {
+        /* a reply without the request's Proxy-States cannot find its way back: better none than that */
+        debug(DBG_ERR, "respond: unable to copy all Proxy-State attributes, not replying");
+        goto errexit;
+    }
 
     replylog(msg, NULL, rq);
     debug(DBG_DBG, "respond: sending %s (id %d) to %s (%s)", radmsgtype2string(msg->code), msg->id, rq->from->conf->name, addr2string(rq->from->addr, tmp, sizeof(tmp)));
